@@ -99,7 +99,7 @@ package sql
 //@   ensures post: (success ==> result == branch.BranchStatusPhaseoneDone) && (!success ==> result == branch.BranchStatusPhaseoneFailed)
 
 //@ func (*Tx).register
-//@   prop C02
+//@   prop C02 C03
 //@   requires tx != nil && ctx != nil && ctx.RoundImages != nil
 //@   let needs := ctx.TransactionMode == types.ATMode && (len(ctx.RoundImages.before) != 0 || len(ctx.RoundImages.after) != 0) && len(ctx.LockKeys) != 0
 //@   let xa := ctx.TransactionMode == types.XAMode
@@ -110,7 +110,9 @@ package sql
 //@   ensures registered-has-id: (needs || xa) && result == nil ==> ctx.BranchID != 0
 //@   ensures refusal-surfaces: (needs || xa) && !ghost.reg_ok ==> result != nil && ctx.BranchID == old(ctx.BranchID)
 //@   at call BranchRegister#1: assert describes-this-branch: arg_param.Xid == ctx.XID && arg_param.ResourceId == ctx.ResourceID && (needs ==> arg_param.BranchType == branch.BranchTypeAT) && (xa ==> arg_param.BranchType == branch.BranchTypeXA)
-//@   range 1 invariant true
+//@   let w := some(string, "w")
+//@   loop 1 invariant keys-so-far: visited(w) ==> contains(lockKey, w + ";")
+//@   at call BranchRegister#1: assert every-lock-key-is-sent: needs && haskey(ctx.LockKeys, w) ==> contains(arg_param.LockKeys, w + ";")
 
 //@ func (*Tx).report
 //@   prop C02
